@@ -250,6 +250,13 @@ def metric_case(draw, tier="quick"):
     S = draw(rows_strategy(draw(st.integers(1, 6)), na, nb))
     if draw(st.booleans()):
         S = S + R[:2]
+    if draw(st.integers(0, 3)) == 0:
+        # same alleles, same concatenated CDR3 text, different split between the chains
+        r0 = dict(R[0])
+        r0["a"], r0["b"] = "CAVKASGSRLT", "CASSDRAQPQHF"
+        r1 = dict(r0)
+        r1["a"], r1["b"] = "CAVKASGSR", "LTCASSDRAQPQHF"
+        R = R + [r0, r1]
     return {"metric": name, "weights": w, "anchors": R, "comparisons": S,
             "index": draw(st.sampled_from(["default", "perm", "str", "dup", "shifted"])),
             "index2": draw(st.sampled_from(["default", "str", "dup"])), "extra": draw(st.booleans()),
